@@ -43,3 +43,26 @@ Print Assumptions C09_derived_unaffected.
 Print Assumptions C09_source_unaffected.
 Print Assumptions C09_copy_same.
 Print Assumptions C09_stored_blueprint.
+
+(* ---- copies start out observably identical: in every store a program can reach, the copy register holds the same
+   value as its source (blueprint copies re-canonicalise names, a no-op on reachable blueprints), so every observation
+   of the op language agrees on source and copy until one of them is mutated ---- *)
+From BB Require Import Model.Interp Proofs.ReachFacts Proofs.CopyFacts.
+
+Theorem C09_copy_blueprint_register : forall prog r d b,
+  Forall api_op prog -> getB (final_store store0 prog) r = Ok b ->
+  let st' := fst (exec (final_store store0 prog) (BCopy r d)) in
+  getB st' d = Ok b /\ (d <> r -> getB st' r = Ok b).
+Proof. exact copy_bp_register. Qed.
+
+Theorem C09_copy_element_register : forall st r d e,
+  getE st r = Ok e -> getE (fst (exec st (ECopy r d))) d = Ok e.
+Proof. exact copy_el_register. Qed.
+
+Theorem C09_copy_sequence_register : forall st r d s,
+  getS st r = Ok s -> getS (fst (exec st (SCopy r d))) d = Ok s.
+Proof. exact copy_seq_register. Qed.
+
+Print Assumptions C09_copy_blueprint_register.
+Print Assumptions C09_copy_element_register.
+Print Assumptions C09_copy_sequence_register.
